@@ -315,7 +315,7 @@ def r6(ctx):
                         except (interp.Undecided, IndexError):
                             env[p["id"]] = interp.Opaque(p["name"])
                 try:
-                    it.run(fn["hir"], env)
+                    it.run(ctx.prog.hir(helper), env)
                 except interp.Undecided as e:
                     ctx.violation("key/brackets/undecided", ctx.where(helper), "cannot evaluate the bracket decision of %s for inner %s, outer %s: %s" % (short(helper, 1), inner, outer, e))
                     return
